@@ -24,6 +24,19 @@ STDLIB_AXIOMS = {
 }
 
 
+def coq_order(d):
+    """compilation order of the .v files of one theories/ sub-directory"""
+    fs = [f for f in os.listdir(d) if f.endswith(".v")]
+    op = os.path.join(d, "ORDER")
+    if os.path.exists(op):
+        listed = [l.strip() for l in open(op) if l.strip() and not l.startswith("#")]
+        return [f for f in listed if f in fs] + sorted(f for f in fs if f not in listed)
+    last = [f for f in ("Proofs.v", "Props.v") if f in fs]
+    first = [f for f in ("Model.v",) if f in fs]
+    mid = sorted(f for f in fs if f not in last and f not in first)
+    return first + mid + last
+
+
 def sh(cmd, cwd=None, env=None, timeout=None, input=None):
     """run a command, return (rc, combined output)"""
     try:
@@ -89,26 +102,45 @@ class Check:
 
     # ---------- Coq ----------
     def coq_build(self, subdir=None, timeout=1500):
-        """(re)build the Coq project (incremental).  Returns (ok, log).  A failure
-        names the file/lemma that no longer checks in self.broken."""
-        if not os.path.exists(os.path.join(COQ, "Makefile")):
-            sh("coq_makefile -f _CoqProject -o Makefile", cwd=COQ)
-        targets = []
-        if subdir:
-            for sd in ([subdir] if isinstance(subdir, str) else subdir):
+        """(re)build the Coq files of theories/Lib and theories/<subdir> that are stale,
+        in dependency order (Lib/*, then Model.v, other files, Proofs.v, Props.v, or the
+        order listed in theories/<subdir>/ORDER).  Full .vo builds with coqc; a lock
+        serialises concurrent checks.  Returns (ok, log); a failure names the file and
+        line that no longer checks in self.broken."""
+        import fcntl
+        subdirs = [] if not subdir else ([subdir] if isinstance(subdir, str) else list(subdir))
+        self.checker_cmd = "coqc -Q /verif/coq/theories LLGoV <Lib/*.v, %s/*.v in dependency order> (full .vo); then Print Assumptions on every Theorem of Props.v" % ",".join(subdirs)
+        lock = open(os.path.join(COQ, ".lock"), "w")
+        fcntl.flock(lock, fcntl.LOCK_EX)
+        log = ""
+        try:
+            newest_dep = 0.0
+            for sd in ["Lib"] + subdirs:
                 d = os.path.join(COQ, "theories", sd)
-                targets += ["theories/%s/%s" % (sd, f[:-2] + ".vo")
-                            for f in sorted(os.listdir(d)) if f.endswith(".v")]
-        rc, out = sh(["make", "-j16"] + targets, cwd=COQ, timeout=timeout)
-        self.checker_cmd = "cd /verif/coq && make -j16 " + " ".join(targets) + \
-            " && coqc Print Assumptions on every theorem of Props.v"
-        if rc != 0:
-            m = re.findall(r'File "([^"]+)", line (\d+)', out)
-            where = "%s:%s" % m[-1] if m else "coq build"
-            self.broken.append("coq-build:" + where)
-            self.log("coq build FAILED at", where)
-            self.log(out[-1500:])
-        return rc == 0, out
+                files = coq_order(d)
+                dir_newest = newest_dep
+                for f in files:
+                    v = os.path.join(d, f)
+                    vo = v[:-2] + ".vo"
+                    stale = (not os.path.exists(vo)) or os.path.getmtime(vo) < os.path.getmtime(v) \
+                        or os.path.getmtime(vo) < dir_newest
+                    if stale:
+                        rc, out = sh(["coqc", "-Q", os.path.join(COQ, "theories"), "LLGoV", v], cwd=COQ, timeout=timeout)
+                        log += out
+                        if rc != 0:
+                            m = re.findall(r'File "([^"]+)", line (\d+)', out)
+                            where = "%s:%s" % (os.path.relpath(m[-1][0], COQ), m[-1][1]) if m else os.path.relpath(v, COQ)
+                            self.broken.append("coq-build:" + where)
+                            self.log("coq build FAILED at", where)
+                            self.log(out[-1500:])
+                            return False, log
+                    dir_newest = max(dir_newest, os.path.getmtime(vo))
+                if sd == "Lib":
+                    newest_dep = dir_newest
+            return True, log
+        finally:
+            fcntl.flock(lock, fcntl.LOCK_UN)
+            lock.close()
 
     def coq_props(self, module, vfile, whitelist=()):
         """Print Assumptions for every Theorem in Props.v; fill self.obligations."""
